@@ -282,7 +282,18 @@ func (wd *World) isCrashedTask(t *simrt.Task) bool {
 var errBoom = errors.New("boom")
 
 func expectedValue(v int) int { return v*31 + 7 }
-func expectedErrText(v int) string { return fmt.Sprintf("e<%d>", v) }
+// every fourth failing submission returns an error whose value is the zero value of its
+// (non-pointer) type - like context.DeadlineExceeded or a sentinel `type ErrX struct{}`
+func expectedErrText(v int) string {
+	if v%4 == 3 {
+		return "e<zero>"
+	}
+	return fmt.Sprintf("e<%d>", v)
+}
+
+type zeroErr struct{}
+
+func (zeroErr) Error() string { return "e<zero>" }
 func expectedPanicText(v int) string { return fmt.Sprintf("p<%d>", v) }
 
 type panicErr struct{ v int }
@@ -334,6 +345,9 @@ func (wd *World) fnBody(j Job[int]) (int, error) {
 	wd.root.exit(wd, s)
 	switch s.Outcome {
 	case 1:
+		if v%4 == 3 {
+			return 0, zeroErr{}
+		}
 		if v%2 == 1 {
 			return 0, codedErr{v} // same text, another dynamic type than errors.New
 		}
